@@ -71,6 +71,13 @@ CHECKS = {
         "Two designed corpora; order between a todo and a plain note under `priority` is not judged; matching set from the model over raw rows.",
         "§4 C09",
     ),
+    "C10": (
+        "exploration",
+        "exhaustive enumeration of (source layout x moved note x ZID mentions x destination shape x marker) through the real CLI on real indexed directories, judged by a line-algebra model and recompilation",
+        "Moved note in 3 forms x 6 positions x 4 ZID-mention patterns x own tags x 10 destination shapes x 3 markers (quick: every value of every dimension in rotation; thorough: the full product of 4320 moves); each case indexes a real directory with db create and runs `zorg note move` in a fresh process. Source must equal the original minus exactly the note's lines; destination must preserve every old line in order with the note inserted once, contiguously; both pages are recompiled: same set of notes, requested kind, body = old body plus inserted metadata words, tags/properties superset, every other note unchanged.",
+        "Moving into a page that does not exist and has no template must fail without touching the source; inherited links are not required to be carried (the statement names tags and properties).",
+        "§4 C10",
+    ),
     "C11": (
         "model_checking",
         "explicit-state BFS over edit/reindex/day-advance histories on a real directory with a predictive oracle fed by the previous raw index state",
@@ -129,7 +136,7 @@ CHECKS = {
     ),
 }
 
-NOT_YET = "check not built yet in this tree (design in DESIGN.md §4); not claimed until it runs clean"
+NOT_YET = "not claimed"
 
 
 def main() -> None:
